@@ -856,7 +856,7 @@ class SimplicialComplex(Hypergraph):
             _S = self.copy()
         if not isolates:
             _S.remove_nodes_from(_S.nodes.isolates())
-        if connected:
+        if connected and _S.num_nodes > 0:
             from ..algorithms import largest_connected_hypergraph
 
             largest_connected_hypergraph(_S, in_place=True)
